@@ -35,6 +35,10 @@ def observe(spec, inputs):
     try:
         r = m1.evaluate_propositions(interp)
         out["props"] = {k: [int(b.lower), int(b.upper)] for k, b in r.items()}
+        m2 = plspec.build(n, spec["model"], env)
+        ev = m2.evaluate(dict(interp))
+        out["ev"] = [int(ev.lower), int(ev.upper)]
+        out["topid"] = m2.id
     except Exception as e:   # noqa
         out["error"] = "%s: %s" % (type(e).__name__, e)
     return out
@@ -55,6 +59,10 @@ def judge(spec, inputs, out, ob):
             bad.append("%s: returned bounds (%d,%d) do not contain the value %d it takes under completion" % (nid, lo, hi, t))
     if "props" in out and set(out["props"]) != set(ids):
         bad.append("result ids differ from model ids")
+    if out.get("ev") is not None and out.get("topid") in ids:
+        t = C.snap_eval(ids[out["topid"]], inputs["completion"])
+        if not (out["ev"][0] <= t <= out["ev"][1]):
+            bad.append("evaluate() returned bounds %s which do not contain the value %d the model takes under the completion" % (out["ev"], t))
     for nid, f in out["flags"].items():
         s = ids[nid]
         ys = inputs["children"].get(nid)
